@@ -1,8 +1,11 @@
 """Mechanical extraction of straight-line string functions from the real source into transducers (engine fst).
 
 Supported subset (anything else -> FstError -> UNDECIDED): assignments to names / attribute paths, if/elif/else whose tests
-are `X[0] == 'c'`, `isinstance(...)`-free returns; expressions: a tracked value, string constants, .replace(c1, c2),
-.strip/.lstrip/.rstrip(c), str(X), f-strings / + / '{}'.format with exactly one tracked value and constants."""
+are `X[0] == 'c'` or decided by the caller's static assumptions (e.g. isinstance(self.value, str) under "the value is a str"), early
+returns; expressions: a tracked value, constants (also tuples / module-level literal constants), .replace(c1, c2),
+.strip/.lstrip/.rstrip(c), str(X), f-strings / + / '{}'.format with exactly one tracked value and constants, conditional
+expressions with a static test; calls of helper functions / methods defined in the same module whose bodies are in the subset
+(inlined); `for` loops over a constant tuple (unrolled)."""
 import ast
 from .fst import Fst, Dfa, FstError, regex_dfa
 
@@ -27,16 +30,87 @@ def path_of(e):
 
 
 class Extractor:
-    def __init__(self, alphabet, env):
+    def __init__(self, alphabet, env, funcs=None, consts=None, static=None, depth=0):
         self.A = alphabet
         self.env = dict(env)          # path -> Val
         self.ret = None               # list of (domain dfa or None, Val)
         self.returns = []
+        self.funcs = funcs or {}      # name -> FunctionDef of the same module (helpers that may be inlined)
+        self.consts = consts or {}    # module-level literal constants
+        self.static = static          # callable(test ast) -> True | False | None: tests decided by the caller's assumptions
+        self.depth = depth
+
+    NOCONST = object()
+
+    def literal_of(self, e):
+        """python value of a constant expression (literal, module-level literal constant, local bound to a constant), else NOCONST"""
+        p = path_of(e)
+        if p is not None and p in self.env and self.env[p].T is None:
+            return self.env[p].const
+        if isinstance(e, ast.Name) and e.id in self.consts and (p is None or p not in self.env):
+            return self.consts[e.id]
+        try:
+            return ast.literal_eval(e)
+        except Exception:
+            pass
+        if isinstance(e, (ast.Tuple, ast.List)):
+            vals = [self.literal_of(x) for x in e.elts]
+            if all(v is not Extractor.NOCONST for v in vals):
+                return tuple(vals)
+        return Extractor.NOCONST
+
+    def inline(self, fd, argvals, kwvals):
+        if self.depth > 4:
+            raise FstError('helper nesting too deep')
+        a = fd.args
+        params = [p.arg for p in a.posonlyargs + a.args]
+        if params and params[0] in ('self', 'cls') and len(argvals) < len(params) and 'self' not in kwvals:
+            params = params[1:]
+        if a.vararg or a.kwarg or len(argvals) > len(params):
+            raise FstError(f'call of {fd.name}: signature')
+        env = {}
+        pos = a.posonlyargs + a.args
+        dflt = {p.arg: d for p, d in zip(pos[len(pos) - len(a.defaults):], a.defaults)}
+        for name, v in zip(params, argvals):
+            env[name] = v
+        for name, v in kwvals.items():
+            env[name] = v
+        for name in params:
+            if name not in env:
+                if name not in dflt:
+                    raise FstError(f'call of {fd.name}: missing argument {name}')
+                lit = self.literal_of(dflt[name])
+                if lit is Extractor.NOCONST:
+                    raise FstError(f'call of {fd.name}: default of {name}')
+                env[name] = Val(const=lit)
+        sub = Extractor(self.A, env, self.funcs, self.consts, self.static, self.depth + 1)
+        sub.run(fd.body)
+        T, const = None, Extractor.NOCONST
+        for d, v, env_ in sub.paths:
+            if d is not None and d.is_empty():
+                continue
+            if v is None:
+                raise FstError(f'helper {fd.name} has a path without a returned value')
+            if v.T is None:
+                if T is not None or (const is not Extractor.NOCONST and const != v.const):
+                    raise FstError(f'helper {fd.name} returns constants and tracked values')
+                const = v.const
+                continue
+            if const is not Extractor.NOCONST:
+                raise FstError(f'helper {fd.name} returns constants and tracked values')
+            t = v.T if d is None else v.T.on_domain(d)
+            T = t if T is None else T.union(t)
+        if T is not None:
+            return Val(T)
+        if const is not Extractor.NOCONST:
+            return Val(const=const)
+        raise FstError(f'helper {fd.name}: no path')
 
     def const_of(self, e):
         if isinstance(e, ast.Constant) and isinstance(e.value, str):
             return e.value
-        return None
+        v = self.literal_of(e)
+        return v if isinstance(v, str) else None
 
     def eval(self, e):
         p = path_of(e)
@@ -45,10 +119,17 @@ class Extractor:
         c = self.const_of(e)
         if c is not None:
             return Val(const=c)
+        lit = self.literal_of(e)
+        if lit is not Extractor.NOCONST:
+            return Val(const=lit)
         if isinstance(e, ast.Call):
             f = e.func
             if isinstance(f, ast.Name) and f.id == 'str' and len(e.args) == 1:
                 return self.eval(e.args[0])
+            hname = f.id if isinstance(f, ast.Name) else (f.attr if isinstance(f, ast.Attribute) and isinstance(f.value, ast.Name) and f.value.id in ('self', 'cls') or
+                                                          (isinstance(f, ast.Attribute) and isinstance(f.value, ast.Name) and f.value.id[:1].isupper()) else None)
+            if hname is not None and hname in self.funcs and not any(isinstance(a_, ast.Starred) for a_ in e.args):
+                return self.inline(self.funcs[hname], [self.eval(a_) for a_ in e.args], {k.arg: self.eval(k.value) for k in e.keywords if k.arg})
             if isinstance(f, ast.Attribute):
                 base = self.eval(f.value)
                 args = [self.const_of(a) for a in e.args]
@@ -128,7 +209,10 @@ class Extractor:
                 return self.wrap(a, '', b.const)
             raise FstError('concatenation of two tracked values')
         if isinstance(e, ast.IfExp):
-            raise FstError('conditional expression')
+            r = self.static(e.test, self) if self.static else None
+            if r is None:
+                raise FstError('conditional expression')
+            return self.eval(e.body if r else e.orelse)
         raise FstError(f'expression {type(e).__name__}: {ast.unparse(e)[:60]}')
 
     def wrap(self, x, pre, suf):
@@ -150,7 +234,7 @@ class Extractor:
         raise FstError(f'test {ast.unparse(test)[:60]}')
 
     def restricted(self, dom):
-        ex = Extractor(self.A, {})
+        ex = Extractor(self.A, {}, self.funcs, self.consts, self.static, self.depth)
         for k, v in self.env.items():
             ex.env[k] = Val(v.T.on_domain(dom)) if v.T is not None else v
         ex.paths = self.paths
@@ -179,6 +263,27 @@ class Extractor:
                         v = None          # returns an untracked object (e.g. the token): callers read the environment
                 self.paths.append((dom, v, dict(self.env)))
                 return
+            elif isinstance(st, ast.If) and self.static is not None and self.static(st.test, self) is not None:
+                taken = st.body if self.static(st.test, self) else st.orelse
+                self.run(list(taken) + body[i + 1:], dom)
+                return
+            elif isinstance(st, ast.For) and not st.orelse:
+                items = self.literal_of(st.iter)
+                if items is Extractor.NOCONST or not isinstance(items, (tuple, list)):
+                    raise FstError('for loop over something that is not a constant tuple')
+                flat = []
+                for it in items:
+                    tg = st.target
+                    if isinstance(tg, ast.Name):
+                        flat.append(ast.Assign(targets=[tg], value=ast.Constant(value=it)))
+                    elif isinstance(tg, (ast.Tuple, ast.List)) and isinstance(it, (tuple, list)) and len(tg.elts) == len(it) and all(isinstance(x, ast.Name) for x in tg.elts):
+                        for x, v_ in zip(tg.elts, it):
+                            flat.append(ast.Assign(targets=[x], value=ast.Constant(value=v_)))
+                    else:
+                        raise FstError('for target')
+                    flat.extend(st.body)
+                self.run(flat + body[i + 1:], dom)
+                return
             elif isinstance(st, ast.If):
                 dtrue = self.test_domain(st.test)
                 if dom is not None:
@@ -197,11 +302,40 @@ class Extractor:
         self.paths.append((dom, None, dict(self.env)))
 
 
-def function_transducer(funcdef, alphabet, input_paths, result='return', result_path=None):
+RAW = {}          # module -> {name: value AST} of module-level assignments that are not literals (e.g. tuples of types)
+
+
+def module_context(modname):
+    """helper functions (module level and methods, by bare name) and literal module-level constants of the module the function lives in"""
+    from . import repo
+    funcs, consts = {}, {}
+    try:
+        tree = repo.module_ast(modname)
+    except Exception:
+        return funcs, consts
+    for n in tree.body:
+        if isinstance(n, ast.FunctionDef):
+            funcs[n.name] = n
+        elif isinstance(n, ast.ClassDef):
+            for m in n.body:
+                if isinstance(m, ast.FunctionDef) and not any(isinstance(d, ast.Call) and getattr(d.func, 'id', None) == '_' for d in m.decorator_list):
+                    funcs.setdefault(m.name, m)
+        elif isinstance(n, ast.Assign) and len(n.targets) == 1 and isinstance(n.targets[0], ast.Name):
+            try:
+                consts[n.targets[0].id] = ast.literal_eval(n.value)
+            except Exception:
+                RAW.setdefault(modname, {})[n.targets[0].id] = n.value
+    return funcs, consts
+
+
+def function_transducer(funcdef, alphabet, input_paths, result='return', result_path=None, module=None, static=None):
     """transducer computed by `funcdef` from the string found at every path in input_paths (all bound to the same input).
-    result='return': the returned expression; result='path': the final value of result_path (e.g. 't.value')."""
+    result='return': the returned expression; result='path': the final value of result_path (e.g. 't.value').
+    module: name of the module the function lives in (helpers / constants it may use); static: decides tests under the caller's assumptions."""
     ident = Fst.identity(alphabet)
-    ex = Extractor(alphabet, {p: Val(ident) for p in input_paths})
+    funcs, consts = module_context(module) if module else ({}, {})
+    funcs = {k: v for k, v in funcs.items() if v is not funcdef}
+    ex = Extractor(alphabet, {p: Val(ident) for p in input_paths}, funcs, consts, static)
     ex.run(funcdef.body)
     T = None
     for d, v, env in ex.paths:
@@ -216,3 +350,55 @@ def function_transducer(funcdef, alphabet, input_paths, result='return', result_
     if T is None:
         raise FstError('no path')
     return T
+
+
+def str_value_assumptions(true_attrs=('with_quotes',)):
+    """static test evaluator for printers of a value that is assumed to be a `str`: isinstance(<the tracked value>, T) is decided by whether T
+    admits str; the listed boolean attributes of self are assumed true; and/or/not are folded. Anything else: undecided (None)."""
+    def static(test, ex):
+        if isinstance(test, ast.BoolOp):
+            vals = [static(v, ex) for v in test.values]
+            if isinstance(test.op, ast.And):
+                if any(v is False for v in vals):
+                    return False
+                return True if all(v is True for v in vals) else None
+            if any(v is True for v in vals):
+                return True
+            return False if all(v is False for v in vals) else None
+        if isinstance(test, ast.UnaryOp) and isinstance(test.op, ast.Not):
+            v = static(test.operand, ex)
+            return None if v is None else (not v)
+        if isinstance(test, ast.Call) and isinstance(test.func, ast.Name) and test.func.id == 'isinstance' and len(test.args) == 2:
+            try:
+                x = ex.eval(test.args[0])
+            except FstError:
+                return None
+            if x.T is None:
+                return None
+            targ = test.args[1]
+            if isinstance(targ, ast.Name):
+                for raw in RAW.values():
+                    if targ.id in raw:
+                        targ = raw[targ.id]
+                        break
+            names = [ast.unparse(t) for t in (targ.elts if isinstance(targ, (ast.Tuple, ast.List)) else [targ])]
+            lit = ex.literal_of(test.args[1])
+            if not all(n.replace('.', '').replace('_', '').isalnum() for n in names):
+                return None
+            # a module-level tuple of types is opaque to literal evaluation: only plain builtin / dotted names are decided
+            for n in names:
+                if n not in ('str', 'bool', 'int', 'float', 'bytes', 'list', 'tuple', 'dict') and '.' not in n and not n[:1].islower():
+                    return None
+            return 'str' in names
+        if isinstance(test, ast.Attribute) and isinstance(test.value, ast.Name) and test.value.id == 'self' and test.attr in true_attrs:
+            return True
+        if isinstance(test, ast.Compare) and len(test.ops) == 1 and isinstance(test.ops[0], (ast.Is, ast.IsNot)) and isinstance(test.comparators[0], ast.Constant) \
+                and test.comparators[0].value is None:
+            try:
+                x = ex.eval(test.left)
+            except FstError:
+                return None
+            if x.T is not None:
+                return isinstance(test.ops[0], ast.IsNot)
+        return None
+    return static
